@@ -391,7 +391,13 @@ func (p principal) marshal(v int) ([]byte, error) {
 	if v == 1 && isNativeEndianLittle() {
 		endian = binary.LittleEndian
 	}
-	endian.PutUint16(b[0:], uint16(p.NumComponents))
+	// In version 1 the number of components includes the realm. NumComponents of a parsed entry has already been
+	// reduced by one for version 1, so derive the count from the components themselves.
+	nc := len(p.Components)
+	if v == 1 {
+		nc++
+	}
+	endian.PutUint16(b[0:], uint16(nc))
 	realm, err := marshalString(p.Realm, v)
 	if err != nil {
 		return b, err
